@@ -1,5 +1,5 @@
 #!/usr/bin/env python3
-"""tools/mk_seed_meta.py <batch-log>... — write seeded/<ID>-<k>/meta.json from tools/seed_batch.sh logs.
+"""tools/mk_seed_meta.py <batch-log>... (in chronological order: a later log overrides an earlier one) — write seeded/<ID>-<k>/meta.json from tools/seed_batch.sh logs.
 
 Does not overwrite a meta.json that carries "hand_written": true.  Notes for individual seeds
 (first-run misses, what was strengthened) come from seeded/NOTES.json.
